@@ -13,7 +13,7 @@ import (
 func init() {
 	register(&propInfo{
 		ID:          "C09",
-		Explanation: "Path analysis of the server's reply-producing code: (R09.1) the response encoder inserts \"jsonrpc\" and \"id\" on every path and exactly one of \"error\" (iff the error field is non-nil) and \"result\"; (R09.2) every response literal carries the constant version \"2.0\" and an id read from the request being answered; (R09.3) in the dispatcher every path of an id-bearing request emits at least one reply and no reply is ever followed by another one (a successful channel registration counts as the reply; the notification return after the user call emits none); (R09.4) no error reply is followed by the user call (dispatcher) or by dispatching the same request (reader); (R09.5) the protocol error codes at the method-lookup failure, arity mismatch, empty request/batch and envelope-decode failure sites are -32601, -32602, -32600 and -32700; (R09.6) batch framing: the array brackets and separators are produced by one framing provider that writes '[' for the first and ',' for every later element that actually produces output, every emitter inside the batch loop is given that provider, the closing bracket is written exactly when something was emitted, and the loop never aborts the array; (R09.7) over WebSocket a request without id is given a discarding, non-nil writer and an id-bearing one the locked message writer. (R09.1 also) the id member written by the encoder is the response's id field itself, never a converted value; (R09.11) every use of a message writer is json.NewEncoder, or a Write of a constant, of a json.Marshal result or of a writer wrapper's own parameter. (R09.12) the frame executor never blocks on something only a finishing handler releases; (R09.13) the id normaliser returns nil next to every error; (R09.14) a callback handed to a writer provider writes on every path. (R09.6d) all replies of a batch are produced in one loop over its elements; (R09.15) every read of the method table in the dispatcher is a comma-ok lookup. (R09.16) no request decode is reachable after a synchronous dispatch. (R09.17) the decoded batch is only measured and read before dispatch. (R09.18) nothing on the receiving side stores into the method member of a received request.",
+		Explanation: "Path analysis of the server's reply-producing code: (R09.1) the response encoder inserts \"jsonrpc\" and \"id\" on every path and exactly one of \"error\" (iff the error field is non-nil) and \"result\"; (R09.2) every response literal carries the constant version \"2.0\" and an id read from the request being answered; (R09.3) in the dispatcher every path of an id-bearing request emits at least one reply and no reply is ever followed by another one (a successful channel registration counts as the reply; the notification return after the user call emits none); (R09.4) no error reply is followed by the user call (dispatcher) or by dispatching the same request (reader); (R09.5) the protocol error codes at the method-lookup failure, arity mismatch, empty request/batch and envelope-decode failure sites are -32601, -32602, -32600 and -32700; (R09.6) batch framing: the array brackets and separators are produced by one framing provider that writes '[' for the first and ',' for every later element that actually produces output, every emitter inside the batch loop is given that provider, the closing bracket is written exactly when something was emitted, and the loop never aborts the array; (R09.7) over WebSocket a request without id is given a discarding, non-nil writer and an id-bearing one the locked message writer. (R09.1 also) the id member written by the encoder is the response's id field itself, never a converted value; (R09.11) every use of a message writer is json.NewEncoder, or a Write of a constant, of a json.Marshal result or of a writer wrapper's own parameter. (R09.12) the frame executor never blocks on something only a finishing handler releases; (R09.13) the id normaliser returns nil next to every error; (R09.14) a callback handed to a writer provider writes on every path. (R09.6d) all replies of a batch are produced in one loop over its elements; (R09.15) every read of the method table in the dispatcher is a comma-ok lookup. (R09.16) no request decode is reachable after a synchronous dispatch. (R09.17) the decoded batch is only measured and read before dispatch. (R09.18) nothing on the receiving side stores into the method member of a received request. (R09.19) every call frame reaches the dispatcher.",
 		NotDecided:  "HTTP status codes, arbitrary body bytes and value encodings (encoding/json), a notification that fails before the user call still being answered with an id:null error (existing behaviour, outside the decided clauses).",
 		Assumptions: []string{"reply emitters are: calls of a value of the error-reply function type, the lazy-writer helper, and the channel registrar"},
 		Run:         runC09,
@@ -179,6 +179,8 @@ func runC09(c *Ctx) {
 	c.batchListReadOnly("R09.17")
 	c.ruleOpt("R09.18", "an unknown method is answered with -32601 whatever it looks like: nothing on the server stores into the method member of a received request before the lookup")
 	c.methodNameUntouched("R09.18")
+	c.rule("R09.19", "every request frame is answered: in the executor-side function that starts the dispatcher every path starts it, except where no handler is configured (a frame silently dropped — a duplicate id, a full slot table — gets no response)")
+	c.everyCallFrameDispatched("R09.19")
 	c.rule("R09.16", "a body that is not valid JSON is answered with one -32700 and runs no handler: the whole body is decoded before the first request is dispatched (no request decode is reachable after a dispatch)")
 	c.decodedBeforeDispatch("R09.16")
 	c.rule("R09.15", "an unknown method (also an alias pointing nowhere) is answered with -32601: every read of the method table in the dispatcher is a comma-ok lookup")
@@ -1389,7 +1391,7 @@ func (c *Ctx) classifyErrSite(in ssa.Instruction) (int64, string) {
 				}
 				// envelope decode error != nil
 				if isNilConst(x.Y) && ((x.Op == token.NEQ && cf.True) || (x.Op == token.EQL && !cf.True)) {
-					if call, ok := x.X.(*ssa.Call); ok && calleeName(call) == "(*encoding/json.Decoder).Decode" {
+					if c.isJSONDecodeErr(x.X, 0) {
 						return -32700, "malformed-JSON"
 					}
 				}
@@ -1534,13 +1536,15 @@ func (c *Ctx) wsWriterChoice(rule string) {
 
 // isDiscardProvider: func(cb func(io.Writer)) { cb(io.Discard) }
 func (c *Ctx) isDiscardProvider(fn *ssa.Function) bool {
-	if len(fn.Params) != 1 {
+	fn = c.P.unbound(fn) // a method value (sc.discardWriter): the method itself, whose last parameter is the callback
+	np := len(fn.Params)
+	if np != 1 && !(np == 2 && fn.Signature.Recv() != nil) {
 		return false
 	}
 	res := false
 	allInstrs(fn, func(in ssa.Instruction) {
 		ci, ok := in.(*ssa.Call)
-		if !ok || ci.Common().Value != ssa.Value(fn.Params[0]) || len(ci.Common().Args) != 1 {
+		if !ok || ci.Common().Value != ssa.Value(fn.Params[np-1]) || len(ci.Common().Args) != 1 {
 			return
 		}
 		if ld, ok := ci.Common().Args[0].(*ssa.UnOp); ok && ld.Op == token.MUL {
@@ -1927,4 +1931,53 @@ func (c *Ctx) batchListReadOnly(rule string) {
 	if n == 0 {
 		c.ok(rule, "decoded batch", "-", "no local list of requests is filled by a decode")
 	}
+}
+
+// isJSONDecodeErr: v is the error of a JSON decode of the envelope: the result of (*json.Decoder).Decode /
+// json.Unmarshal, or the error result of a (possibly generic) helper every return of which hands back such
+// an error at that position.
+func (c *Ctx) isJSONDecodeErr(v ssa.Value, depth int) bool {
+	if depth > 3 {
+		return false
+	}
+	var call *ssa.Call
+	idx := 0
+	switch x := v.(type) {
+	case *ssa.Call:
+		call = x
+	case *ssa.Extract:
+		call, _ = x.Tuple.(*ssa.Call)
+		idx = x.Index
+	}
+	if call == nil {
+		return false
+	}
+	switch calleeName(call) {
+	case "(*encoding/json.Decoder).Decode", "encoding/json.Unmarshal":
+		return true
+	}
+	g := staticCallee(call)
+	if g == nil || !c.P.allFns[g] {
+		return false
+	}
+	found, all := false, true
+	allInstrs(g, func(y ssa.Instruction) {
+		rt, ok := y.(*ssa.Return)
+		if !ok || idx >= len(rt.Results) {
+			return
+		}
+		var lv []ssa.Value
+		leaves(rt.Results[idx], map[ssa.Value]bool{}, &lv)
+		for _, l := range lv {
+			if isNilConst(l) {
+				continue
+			}
+			if c.isJSONDecodeErr(l, depth+1) {
+				found = true
+			} else {
+				all = false
+			}
+		}
+	})
+	return found && all
 }
